@@ -1,14 +1,26 @@
 (* C01 — compiled bytecode computes what the datapath program source says.
-   PARTIAL at this stage: the full statement is [C01_full_statement] below; what is proved
-   here are the arithmetic agreement of the two semantics, the refutation of the statement
-   without its clobber hypothesis (the recorded finding), and non-vacuity witnesses evaluated by
-   the kernel on both sides.  The check's verdict rests on these plus the correspondence runs:
-   (a) portus' compiler against the compiler model (byte-identical images), (b) the libccp model
-   against the compiled C code, (c) the source semantics against what the real libccp does with
-   the bytes portus produced, invocation by invocation (return code, window/rate settings,
-   report bytes, every register).
-   Definitions: Portus.Lang.{SrcSem,Typing,EndToEnd}, Portus.Dp.Machine. *)
-From Portus Require Import EndToEnd.
+   PARTIAL.  The full statement is [C01_full_statement] below (source text in, observations of
+   every invocation out, on both sides).  Proved, for ALL programs, register states and inputs:
+     C01_expression_simulation  the instructions lowered from a well-typed expression outside the
+                                clobber class, run on the libccp register machine, compute what
+                                the source semantics says: same value, same variable updates,
+                                same fault code at the same point;
+     C01_events_simulation      the same for a whole event list: condition blocks with the
+                                event-flag retargeting, statement lists, the datapath's event
+                                loop (first true event ends the invocation unless fallthrough);
+     C01_operators_agree        instruction semantics = operator semantics incl. every fault rule;
+     C01_clobbers_refuted       the statement is false without the clobber hypothesis (the
+                                recorded finding), with its witness;
+   plus kernel-evaluated non-vacuity witnesses of the full statement.
+   Missing for the full statement: the invocation wrapper (flag reset, window/rate settings,
+   report and reset of volatile variables, program switch) and the decode of the install message
+   into the instruction list are not yet connected to C01_events_simulation, and the side
+   conditions on the final scope (scf_ok, scf_impl) are not yet derived from wt_prog.  The check's
+   verdict therefore also rests on the correspondence runs: (a) portus' compiler against the
+   compiler model (byte-identical images), (b) the libccp model against the compiled C code,
+   (c) the source semantics against what the real libccp does with the bytes portus produced.
+   Definitions: Portus.Lang.{SrcSem,Typing,EndToEnd,SimExpr,SimProg}, Portus.Dp.Machine. *)
+From Portus Require Import EndToEnd SimProg.
 
 (* For every source text in the property's quantifier (accepted by the compiler, well typed under
    the documented discipline, no operand overwritten before use, no legacy-infinity initial
@@ -19,6 +31,48 @@ From Portus Require Import EndToEnd.
 Definition C01_full_statement : Prop :=
   forall src ins, in_c01_scope src = true -> clock_monotone 1000 ins = true ->
                   agrees src ins = Some true.
+
+(* ---------- the simulation theorems ----------
+   scf is the scope when lowering has finished; [R scf cx s c]: every variable's register holds
+   the variable's value, the time bases and the measurements agree.  [scf_ok]: names map to
+   distinct registers of the variable classes, primitives to their fixed indices, Micros to
+   implicit 3.  [link]/[tname_ok] tie the typing environment to the scope. *)
+Theorem C01_expression_simulation :
+  forall (scf : list (name * reg)) (cx : ctx), scf_ok scf ->
+  forall (e : expr) (g : tenv) (t : vty) (g' : tenv) (sc : scope) (is : list instr) (r : reg) (sc' : scope),
+    ty_expr g e = Some (t, g') -> clobbers e = false ->
+    compile_expr e sc = Ok (is, r, sc') ->
+    link g (sc_named sc) -> tname_ok (sc_named sc) -> sext (sc_named sc') scf -> sc_ntmp sc <= 8 ->
+    Forall instr_within is ->
+    res_ok scf sc sc' e r /\ sc_ntmp sc' <= 8 /\ (forall (s : sstate) (c : conn), R scf cx s c ->
+       match eval cx s e with
+       | Val s' v =>
+         exists c' : conn, run_is (cx_clock cx) (cx_dp_zero cx) c is = inr c' /\ R scf cx s' c' /\ tmp_frame (sc_ntmp sc) c c' /\ read_reg (cx_clock cx) (cx_dp_zero cx) c' (dreg_of r) = v
+       | Fault zc s' =>
+         exists c' : conn, run_is (cx_clock cx) (cx_dp_zero cx) c is = inl (zc, c') /\ R scf cx s' c'
+       end).
+Proof. exact sim_expr. Qed.
+Print Assumptions C01_expression_simulation.
+
+Theorem C01_events_simulation :
+  forall (scf : list (name * reg)) (cx : ctx), scf_ok scf -> scf_impl scf ->
+  forall (evs : list event) (g : tenv) (sc : scope) (idx : N) (devs : list Lower.devent)
+         (is : list instr) (sc' : scope) (pre post : list dinstr) (dp : dprog),
+    ty_events g (map sev evs) = true ->
+    forallb (fun ev : event => negb (clobbers (ev_flag ev)) && forallb (fun e : expr => negb (clobbers e)) (ev_body ev)) evs = true ->
+    compile_events evs sc idx = Ok (devs, is, sc') ->
+    link g (sc_named sc) -> tname_ok (sc_named sc) -> sext (sc_named sc') scf ->
+    Forall instr_within is ->
+    dp_instrs dp = pre ++ map dinstr_of is ++ post -> idx = N.of_nat (length pre) ->
+    forall (s : sstate) (c : conn), R scf cx s c ->
+      match run_events cx s (map sev evs) with
+      | inl (zc, s') =>
+        exists c' : conn, run_exprs (cx_clock cx) (cx_dp_zero cx) dp c (map dexpr_of devs) = inl (zc, c') /\ R scf cx s' c'
+      | inr s' =>
+        exists c' : conn, run_exprs (cx_clock cx) (cx_dp_zero cx) dp c (map dexpr_of devs) = inr c' /\ R scf cx s' c'
+      end.
+Proof. exact sim_events. Qed.
+Print Assumptions C01_events_simulation.
 
 (* the value operators mean the same thing on both sides: the machine's instruction semantics
    and the source semantics' op_sem agree on every pair of 64-bit operands (the machine opcode
